@@ -78,9 +78,19 @@ def add_macros(g: ProgGen, ast: dict) -> None:
             args = [g.arg() for _ in m["params"]]
             blk.insert(r.randint(0, len(blk)), {"t": "macrocall", "name": m["name"], "args": args, "trailing_comma": r.random() < 0.2})
     if r.random() < 0.5:
-        n = len(macros) + len(ast["routines"])
-        order = list(range(n))
-        r.shuffle(order)
+        # macros in any order anywhere between the routines; the routines keep their order (ids must ascend)
+        nm, nr = len(macros), len(ast["routines"])
+        mi = list(range(nm))
+        r.shuffle(mi)
+        slots = sorted(r.randint(0, nr) for _ in range(nm))
+        order: list[int] = []
+        k = 0
+        for ri in range(nr + 1):
+            while k < nm and slots[k] == ri:
+                order.append(mi[k])
+                k += 1
+            if ri < nr:
+                order.append(nm + ri)
         ast["order"] = order
 
 
